@@ -130,7 +130,14 @@ impl Float {
             ),
 
             (Category::Zero, Category::Zero) => {
-                Self::zero(sem, a.get_sign() && b.get_sign())
+                // Like-signed zeros keep their sign. Otherwise the sum is +0,
+                // except when rounding toward negative infinity.
+                let b_sign = b.get_sign() ^ subtract;
+                if a.get_sign() == b_sign {
+                    Self::zero(sem, b_sign)
+                } else {
+                    Self::zero(sem, rm == RoundingMode::Negative)
+                }
             }
 
             (Category::Infinity, Category::Infinity) => {
@@ -143,6 +150,11 @@ impl Float {
             (Category::Normal, Category::Normal) => {
                 let mut res = Self::add_or_sub_normals(a, b, subtract);
                 res.0.normalize(rm, res.1);
+                // An exact zero sum is +0, except when rounding toward
+                // negative infinity (IEEE 754-2019, section 6.3).
+                if res.0.is_zero() {
+                    res.0.set_sign(rm == RoundingMode::Negative);
+                }
                 res.0
             }
         }
